@@ -300,6 +300,8 @@ def _mk_model(cfg, tw, D):
         o = tw.mod("opfython.models.unsupervised").UnsupervisedOPF(min_k=1, max_k=cfg["max_k"])
     elif model == "knn":
         o = tw.mod("opfython.models.knn_supervised").KNNSupervisedOPF(max_k=cfg["max_k"])
+    elif model == "semi":
+        o = tw.mod("opfython.models.semi_supervised").SemiSupervisedOPF()
     else:
         o = tw.mod("opfython.models.supervised").SupervisedOPF()
     o.distance_fn = models.table_metric(D)
@@ -311,6 +313,9 @@ def _fit_rows(o, cfg, rows, labels):
     Y = symnp.SArr.from_list([labels[i] for i in rows], dtype="i")
     if cfg["model"] == "knn":
         o.fit(X, Y, X, Y)
+    elif cfg["model"] == "semi":      # the last row is the unlabeled sample
+        o.fit(symnp.SArr.from_list([[float(i)] for i in rows[:-1]]), symnp.SArr.from_list([labels[i] for i in rows[:-1]], dtype="i"),
+              symnp.SArr.from_list([[float(i)] for i in rows[-1:]]))
     else:
         o.fit(X, Y)
 
@@ -319,7 +324,7 @@ def _state(o, model):
     g = o.subgraph
     s = dict(cost=[nd.cost for nd in g.nodes], pred=[nd.pred for nd in g.nodes], plab=[nd.predicted_label for nd in g.nodes],
              status=[nd.status for nd in g.nodes], order=list(g.idx_nodes)[-g.n_nodes:], n=g.n_nodes)
-    if model != "sup":
+    if model not in ("sup", "semi"):
         s.update(clus=[nd.cluster_label for nd in g.nodes], root=[nd.root for nd in g.nodes], dens=[nd.density for nd in g.nodes],
                  best_k=g.best_k, constant=g.constant, mind=g.min_density, maxd=g.max_density)
     if model == "uns":
@@ -335,15 +340,25 @@ def make_refit_harness(cfg, tw):
         eng = core.engine()
         symmath.LEVEL = "full"
         N = max(n1, n2)
-        D = models.sym_matrix(eng, N, N, symmetric=True, diag="zero", name="d")
-        off = [to_real(D[i][j]) for i in range(N) for j in range(N) if i != j]
+        mid = cfg.get("mid_predict", False)   # the earlier life includes a prediction; the final predictions are compared too
+        M = N + 1 if mid else N
+        D = models.sym_matrix(eng, M, M, symmetric=True, diag="zero", name="d")
+        off = [to_real(D[i][j]) for i in range(M) for j in range(M) if i != j]
         eng.assume(z3.And([z3.And(t > rv(0.001), t <= 1000) for t in off]))
+        Xq = symnp.SArr.from_list([[float(N)]])
         used = _mk_model(cfg, tw, D)
-        _fit_rows(used, cfg, list(range(n1)), labels)         # earlier fit on other data
+        # earlier fit on other data (with mid_predict: the same rows rotated by one, so that labeled/unlabeled roles differ)
+        _fit_rows(used, cfg, [(i + 1) % n1 for i in range(n1)] if mid else list(range(n1)), labels)
+        if mid:
+            used.predict(Xq)
         _fit_rows(used, cfg, list(range(n2)), labels)
         fresh = _mk_model(cfg, tw, D)
         _fit_rows(fresh, cfg, list(range(n2)), labels)
-        return dict(D=D, used=_state(used, cfg["model"]), fresh=_state(fresh, cfg["model"]))
+        su, sf = _state(used, cfg["model"]), _state(fresh, cfg["model"])
+        if mid:
+            su["prediction"] = list(used.predict(Xq))
+            sf["prediction"] = list(fresh.predict(Xq))
+        return dict(D=D, used=su, fresh=sf)
     return harness
 
 
